@@ -333,7 +333,7 @@ def run_family(ctx: Ctx, prop: str, observer, rule: str) -> int:
     # code -> spec: shipped example models and repository test models judged by the specification
     from . import model_oracle
 
-    model_oracle.run(ctx, rep, prop)
+    model_oracle.run(ctx, rep, prop, extra=model_oracle.fractional_variants(ok, 60 if ctx.quick else 400))
     return rep.finish()
 
 
